@@ -30,6 +30,11 @@ def value_expr_hook(an, e, st, frame):
     """`<slot>.value` -> 'v:<token of the slot>'"""
     if isinstance(e, ast.Attribute) and e.attr == 'value' and is_self_attr(e.value) and e.value.attr in ('_part', '_output'):
         return 'v:' + an.ev(e.value, st, frame)
+    if isinstance(e, ast.Attribute) and e.attr == 'value' and isinstance(e.value, ast.Name):
+        from ..state import is_token
+        b = an.ev(e.value, st, frame)         # a local alias of a slot (`received_part = self._part`) carries the slot's token
+        if is_token(b):
+            return 'v:' + b
     return NotImplemented
 
 
